@@ -172,14 +172,19 @@ pub fn log_delta<const N: usize>(op: u8) {
 }
 
 /// ecs_iter_destroy!: every destruction inside the loop is logged once, in order, nothing else.
+/// (Pre-state built through the public API — a symbolic pre-state plus Vec pushes in a loop
+/// exceeds the solver's memory; the per-destruction delta from symbolic states is decided by
+/// the `log_delta` harnesses, this one adds the loop.)
 pub fn log_iter_destroy<const N: usize>() {
-    let (mut world, m) = state_with_history_opt::<N>(Some(false));
+    let mut world = WE::with_capacity(WECapacity { arch_one: N, arch_two: 0, arch_three: 0 });
+    world.arch_one.data.__verif_reserve_events(8);
     let mut i = 0;
     while i < N {
-        sym::assume(m.val[i] == i as u8 || i >= m.len);
+        world.create::<ArchOne>((EA(i as u8),));
         i += 1;
     }
-    let (_c0, nc0, d0, nd0) = logs::<6>(&world);
+    let (_c0, nc0, _d0, nd0) = logs::<6>(&world);
+    assert!(nc0 == N && nd0 == 0);
     let flags = sym::arr_bool::<N>();
     let mut order: [(u32, u32); N] = [(0, 0); N];
     let mut n = 0;
@@ -194,16 +199,16 @@ pub fn log_iter_destroy<const N: usize>() {
     });
     let (_c1, nc1, d1, nd1) = logs::<6>(&world);
     assert!(nc1 == nc0, "ecs_iter_destroy! touched the created log");
-    assert!(nd1 == nd0 + n, "destroyed log did not grow by exactly the destructions of the loop");
+    assert!(nd1 == n, "destroyed log did not grow by exactly the destructions of the loop");
     let mut i = 0;
     while i < N {
         if i < n {
-            assert!(d1[nd0 + i] == order[i], "destroyed log does not list the loop's destructions in order");
+            assert!(d1[i] == order[i], "destroyed log does not list the loop's destructions in order");
         }
         i += 1;
     }
     cover!(n == N, "everything destroyed");
-    cover!(N < 2 || (n == 1 && m.len == N), "exactly one destroyed");
+    cover!(N < 2 || (n == 1 && flags[0]), "exactly one destroyed");
     std::mem::forget(world);
 }
 
